@@ -1,4 +1,5 @@
 SPECIFICATION Spec
 CONSTANTS
   MaxLen = 4
+  MaxDeep = 4
 INVARIANT Emit
